@@ -63,7 +63,7 @@ def summaries(scenarios, dev):
         with open(cp, "w") as f:
             json.dump([U.spec_scenario(s) for s in scenarios], f)
         cfg = _cfg(work, "j.cfg", "JSpec", dev, ["INVARIANT EmitSummary"])
-        r = tlc.model_check("MC_LoaderUser", cfg=cfg, env={"VT_CASES": cp}, workers=1, timeout=3000)
+        r = tlc.model_check("OracleLoaderUser", cfg=cfg, env={"VT_CASES": cp}, workers=1, timeout=3000)
         tlc.require_ok(r, f"summary evaluation dev={sorted(dev)}")
         out = {}
         for x in r.results("RESULT"):
@@ -276,9 +276,20 @@ def project(obs, pid):
 
 
 def dev_levels(devs):
+    """Deviation sets in the order they are tried (a case takes the first, hence a smallest, set that
+    explains it): wave 1 = the single clauses and, to shrink the next wave, all of them together;
+    wave 2 = the sets in between."""
     devs = sorted(devs)
-    for n in range(1, len(devs) + 1):
-        yield [frozenset(c) for c in itertools.combinations(devs, n)]
+    if not devs:
+        return
+    allof = frozenset(devs)
+    w1 = [frozenset([d]) for d in devs]
+    if len(devs) > 1:
+        w1.append(allof)
+    yield w1
+    mid = [frozenset(c) for n in range(2, len(devs)) for c in itertools.combinations(devs, n)]
+    if mid:
+        yield mid
 
 
 def known(rep, fids, case=None):
@@ -299,11 +310,13 @@ def short(sc):
                             nrefs=len(f["refs"]), imports=f["imports"]) for f in sc["files"]])
 
 
-def judge_all(rep, pid, cases, with_summary, nontrivial):
-    """cases: scenarios (with flav).  Runs them against the real code, lets TLC decide.
+def judge_all(rep, pid, cases, nontrivial):
+    """cases: scenarios (with flav; sc["summary"] = True for TLC-enumerated ones).
+    Runs them against the real code, lets TLC decide.
 
     A case conforms under D iff its event log is a behaviour of the module with Dev = D and (for
-    TLC-enumerated scenarios) the observed summary equals the one TLC computes with Dev = D."""
+    TLC-enumerated scenarios) the observed summary is one TLC computes with Dev = D."""
+    from concurrent.futures import ThreadPoolExecutor
     findings = {f["deviation"]: f["id"] for f in common.open_findings(pid)}
     runs = []
     for sc in cases:
@@ -312,38 +325,56 @@ def judge_all(rep, pid, cases, with_summary, nontrivial):
                          trace=dict(sc=U.spec_scenario(sc), mode=pid, events=U.tlc_events(sc, run))))
     pending = list(range(len(runs)))
     verdict = {}
+    fallback = {}
     why = {}
     stats = []
     for level in [[frozenset()]] + list(dev_levels(findings)):
-        for D in level:
-            if not pending:
-                break
-            sub = [runs[i] for i in pending]
-            got, r = validate([x["trace"] for x in sub], D)
-            stats.append(("TraceLoaderUser", D, r))
-            sums = None
-            if with_summary:
-                sums, r2 = summaries([x["sc"] for x in sub], D)
-                stats.append(("MC_LoaderUser[JSpec]", D, r2))
-            still = []
-            for j, i in enumerate(pending):
-                x = runs[i]
+        if not pending:
+            break
+        sub = [runs[i] for i in pending]
+        withsum = [x["sc"] for x in sub if x["sc"].get("summary")]
+        jobs = [("t", D) for D in level] + ([("s", D) for D in level] if withsum else [])
+
+        def work(job):
+            kind, D = job
+            return validate([x["trace"] for x in sub], D) if kind == "t" else summaries(withsum, D)
+        with ThreadPoolExecutor(max_workers=max(1, tlc.NCPU)) as ex:
+            res = dict(zip(jobs, ex.map(work, jobs)))
+        still = []
+        for j, i in enumerate(pending):
+            x = runs[i]
+            found = None
+            for D in level:
+                got, r = res[("t", D)]
                 ok = got[j][0] == got[j][1]
                 if not ok and not D:
                     k = got[j][0]
                     why[i] = (f"event {k + 1} of the recorded load is not a step of LoaderUser!Next: "
                               f"{json.dumps(x['trace']['events'][k])[:260]}")
-                if ok and with_summary:
+                if ok and x["sc"].get("summary"):
+                    sums, _ = res[("s", D)]
                     exps = [common.canon(project(expected_obs(e), pid)) for e in sums[x["sc"]["id"]]]
                     o = project(x["obs"], pid)
                     ok = common.canon(o) in exps
                     if not ok and not D:
                         why[i] = f"observed {common.canon(o)[:240]} but LoaderUser.tla gives {exps[0][:240]}"
                 if ok:
-                    verdict[i] = D
-                else:
-                    still.append(i)
-            pending = still
+                    found = D
+                    break
+            if found is not None and len(found) > 1 and len(found) == len(findings) and len(level) > 1 and len(findings) > 2:
+                fallback[i] = found      # explained by all clauses together: look for a smaller set first
+                found = None
+            if found is None:
+                still.append(i)
+            else:
+                verdict[i] = found
+        for (kind, D), (_, r) in res.items():
+            if r is not None:
+                stats.append(("TraceLoaderUser" if kind == "t" else "OracleLoaderUser", D, r))
+        pending = still
+    for i in pending:
+        if i in fallback:
+            verdict[i] = fallback[i]
     for i, x in enumerate(runs):
         case = short(x["sc"])
         if i in verdict and not verdict[i]:
